@@ -92,6 +92,7 @@ fn classify(scn: &Scenario, cmp: &crate::exec::Comparison) -> CaseInfo {
         .class_if(complete && !cmp.final_model.slots.is_empty(), "sequence-completed")
         .class_if(ordered_methods.len() >= 2, "two-or-more-ordered-methods")
         .class(super::verdict_class(&cmp.model_verdict))
+                .class_if(scn.history.iter().any(|c| c.unwinding), "has-call-by-a-destructor-during-unwinding")
 }
 
 pub fn check(scn: &Scenario) -> Result<CaseInfo, String> {
@@ -146,6 +147,7 @@ pub fn extensions(scn: &Scenario) -> Vec<Scenario> {
                     method: m,
                     arg,
                     via: (i as u8 + arg) % (scn.clones + 1),
+                    unwinding: false,
                 });
                 out.push(s);
             }
